@@ -1,3 +1,352 @@
-//! C13 — bounded checks (to be written)
-use crate::ctx::Ctx;
-pub fn run(_ctx: &mut Ctx) {}
+//! C13 — the native lax functor path agrees with the strict path; the witness is correct; diagrams
+//! with pending unifications are refused.
+//!
+//! Oracles: the strict-path image (`dyn_functor::define_map_arrow`, the subject of C12) and, as a
+//! second opinion, the definitional substitution oracle of C12 (`c12::subst`).  The native result is
+//! quotiented by the reference closure `model::quotient` (and, separately, by the library's own
+//! `quotient`) and compared up to isomorphism.  The witness clauses are evaluated on raw fields.
+use crate::c12::*;
+use crate::ctx::{guard, Ctx};
+use crate::model::*;
+use open_hypergraphs::lax::functor as lf;
+use serde_json::{json, Value};
+
+type Check = fn(&mut Ctx, &Value);
+const CHECKS: &[(&str, Check)] = &[("native", chk_native), ("witness", chk_witness), ("refusal", chk_refusal)];
+
+/// raw reading of a lax result: plain model + pending pairs, all indices checked
+fn read_raw(r: &LOH) -> Result<(M, Vec<(usize, usize)>), String> {
+    if r.hypergraph.adjacency.len() != r.hypergraph.edges.len() {
+        return Err(format!("{} edge labels but {} incidence records", r.hypergraph.edges.len(), r.hypergraph.adjacency.len()));
+    }
+    if r.hypergraph.quotient.0.len() != r.hypergraph.quotient.1.len() {
+        return Err("pending unification lists of different length".into());
+    }
+    let (m, q) = M::from_lax(r);
+    if !m.valid() {
+        return Err(format!("node index out of range in {}", m.json()));
+    }
+    if q.iter().any(|&(u, v)| u >= m.w.len() || v >= m.w.len()) {
+        return Err("pending unification out of range".into());
+    }
+    Ok((m, q))
+}
+
+/// the strict-path image of a quotient-free lax diagram (None + failure record if it cannot be had)
+fn strict_path(ctx: &mut Ctx, check: &str, input: &Value, fun: &Fun, l: &LOH) -> Option<M> {
+    match guard(|| lf::dyn_functor::define_map_arrow(fun, l)) {
+        Err(p) => {
+            ctx.fail(check, "C13.strict-path-available", input, json!(format!("strict path panic: {}", p)), json!("a diagram"));
+            None
+        }
+        Ok(r) => match read_lax(&r) {
+            Err(why) => {
+                ctx.fail(check, "C13.strict-path-available", input, json!(why), json!("well-formed diagram"));
+                None
+            }
+            Ok(m) => Some(m),
+        },
+    }
+}
+
+/// input: {"f": model (no pending unifications), "F": functor}
+fn chk_native(ctx: &mut Ctx, input: &Value) {
+    let Some(i) = decode(input) else { return };
+    if !i.fq.is_empty() {
+        return;
+    }
+    ctx.case("native", input, i.f.nontrivial());
+    let l = i.f.to_lax();
+    let r = match guard(|| lf::try_define_map_arrow(&i.fun, &l)) {
+        Err(p) => return ctx.fail("native", "C13.native-no-panic", input, json!(format!("panic: {}", p)), json!("Some(diagram)")),
+        Ok(None) => return ctx.fail("native", "C13.native-returns", input, json!("None"), json!("Some(diagram) for a quotient-free input")),
+        Ok(Some(r)) => r,
+    };
+    let (raw, pend) = match read_raw(&r) {
+        Err(why) => return ctx.fail("native", "C13.native-wf", input, json!(why), json!("well-formed lax diagram")),
+        Ok(x) => x,
+    };
+    let Some((mq, _)) = quotient(&raw, &pend) else {
+        return ctx.fail("native", "C13.native-wf", input, json!({"diagram": raw.json(), "pending": pairs_json(&pend)}), json!("pending unifications relate equal labels"));
+    };
+    let (fa, fb) = (i.fun.fobj(&i.f.source_type()), i.fun.fobj(&i.f.target_type()));
+    if mq.source_type() != fa || mq.target_type() != fb {
+        ctx.fail("native", "C13.native-type", input, json!({"source": mq.source_type(), "target": mq.target_type()}), json!({"source": fa, "target": fb}));
+    }
+    if let Some(sm) = strict_path(ctx, "native", input, &i.fun, &l) {
+        if !is_iso(&mq, &sm) {
+            ctx.fail("native", "C13.native-vs-strict", input, mq.json(), sm.json());
+        }
+        // "once quotiented" with the library's own quotient
+        let mut r2 = r.clone();
+        match guard(|| r2.quotient().is_ok()) {
+            Err(p) => ctx.fail("native", "C13.native-quotient-by-library", input, json!(format!("quotient panic: {}", p)), sm.json()),
+            Ok(false) => ctx.fail("native", "C13.native-quotient-by-library", input, json!("quotient reported a label clash"), sm.json()),
+            Ok(true) => match read_raw(&r2) {
+                Err(why) => ctx.fail("native", "C13.native-quotient-by-library", input, json!(why), sm.json()),
+                Ok((m2, p2)) => {
+                    if !p2.is_empty() || !is_iso(&m2, &sm) {
+                        ctx.fail("native", "C13.native-quotient-by-library", input, json!({"diagram": m2.json(), "pending": pairs_json(&p2)}), sm.json());
+                    }
+                }
+            },
+        }
+    }
+    if let Some(e) = subst(&i.f, &i.fun) {
+        if !is_iso(&mq, &e) {
+            ctx.fail("native", "C13.native-vs-definition", input, mq.json(), e.json());
+        }
+    }
+}
+
+/// input: {"f": model (no pending unifications), "F": functor}
+fn chk_witness(ctx: &mut Ctx, input: &Value) {
+    let Some(i) = decode(input) else { return };
+    if !i.fq.is_empty() {
+        return;
+    }
+    ctx.case("witness", input, i.f.nontrivial());
+    let (f, fun) = (&i.f, &i.fun);
+    let l = f.to_lax();
+    let (r, wit) = match guard(|| lf::map_arrow_witness(fun, &l)) {
+        Err(p) => return ctx.fail("witness", "C13.witness-no-panic", input, json!(format!("panic: {}", p)), json!("Some((diagram, witness))")),
+        Ok(None) => return ctx.fail("witness", "C13.witness-returns", input, json!("None"), json!("Some for a quotient-free input")),
+        Ok(Some(x)) => x,
+    };
+    let (raw, pend) = match read_raw(&r) {
+        Err(why) => return ctx.fail("witness", "C13.native-wf", input, json!(why), json!("well-formed lax diagram")),
+        Ok(x) => x,
+    };
+    let n = f.w.len();
+    let blocks: Vec<Vec<u8>> = f.w.iter().map(|&a| fun.obj[a as usize].clone()).collect();
+    // shape: one segment per input node, values are nodes of the returned (unquotiented) diagram
+    let seg = match ic_wf(&wit, Some(n), Some(raw.w.len())) {
+        Err(why) => return ctx.fail("witness", "C13.witness-shape", input, json!({"why": why, "sizes": wit.sources.table.0, "values": wit.values.table.0, "values_target": wit.values.target}), json!({"segments": n, "values_target": raw.w.len()})),
+        Ok(s) => s,
+    };
+    let sizes: Vec<usize> = seg.iter().map(|s| s.len()).collect();
+    let exp_sizes: Vec<usize> = blocks.iter().map(|b| b.len()).collect();
+    if sizes != exp_sizes {
+        return ctx.fail("witness", "C13.witness-sizes", input, json!(sizes), json!(exp_sizes));
+    }
+    let labels: Vec<Vec<u8>> = seg.iter().map(|s| s.iter().map(|&v| raw.w[v]).collect()).collect();
+    if labels != blocks {
+        ctx.fail("witness", "C13.witness-labels", input, json!({"witness": seg, "labels": labels}), json!(blocks));
+    }
+    let Some((mq, q)) = quotient(&raw, &pend) else {
+        return ctx.fail("witness", "C13.native-wf", input, json!({"diagram": raw.json(), "pending": pairs_json(&pend)}), json!("pending unifications relate equal labels"));
+    };
+    // pushing the input interfaces through the witness and the quotient map
+    let push = |list: &Vec<usize>, q: &Vec<usize>| -> Vec<usize> { list.iter().flat_map(|&v| seg[v].iter().map(|&u| q[u])).collect() };
+    let (ps, pt) = (push(&f.s, &q), push(&f.t, &q));
+    if ps != mq.s || pt != mq.t {
+        ctx.fail("witness", "C13.witness-interfaces", input, json!({"witness": seg, "pushed_s": ps, "pushed_t": pt}), json!({"s": mq.s, "t": mq.t}));
+    }
+    // the same with the library's quotient map
+    let mut r2 = r.clone();
+    match guard(|| r2.quotient()) {
+        Ok(Ok(ql)) if ql.table.0.len() == raw.w.len() => {
+            let ql = ql.table.0.clone();
+            let (ps, pt) = (push(&f.s, &ql), push(&f.t, &ql));
+            let (s2, t2): (Vec<usize>, Vec<usize>) = (r2.sources.iter().map(|x| x.0).collect(), r2.targets.iter().map(|x| x.0).collect());
+            if ps != s2 || pt != t2 {
+                ctx.fail("witness", "C13.witness-interfaces-library-quotient", input, json!({"witness": seg, "q": ql, "pushed_s": ps, "pushed_t": pt}), json!({"s": s2, "t": t2}));
+            }
+        }
+        other => ctx.fail("witness", "C13.witness-interfaces-library-quotient", input, json!(format!("quotient of the result: {:?}", other.map(|x| x.map(|q| q.table.0.len())))), json!("Ok(q) with one entry per node")),
+    }
+    // the diagram returned next to the witness is the functor image
+    if let Some(sm) = strict_path(ctx, "witness", input, fun, &l) {
+        if !is_iso(&mq, &sm) {
+            ctx.fail("witness", "C13.witness-result-vs-strict", input, mq.json(), sm.json());
+        }
+    }
+    // the witness nodes are the nodes that replace input node i: expose them as extra interface
+    // entries on both the definitional image and the returned image and ask for an isomorphism
+    if let Some((e, marks)) = subst_marked(f, fun) {
+        let mut a = e.clone();
+        a.s.extend(marks.iter().flatten().cloned());
+        let mut b = mq.clone();
+        b.s.extend(seg.iter().flatten().map(|&u| q[u]));
+        if !is_iso(&b, &a) {
+            ctx.fail("witness", "C13.witness-tracks-nodes", input, json!({"witness": seg, "image_with_witness_nodes_appended_to_sources": b.json()}), a.json());
+        }
+    }
+}
+
+/// input: {"f": model, "fq": non-empty pending pairs (any labels), "F": functor}
+fn chk_refusal(ctx: &mut Ctx, input: &Value) {
+    let Some(f) = input.get("f").and_then(M::from_json) else { return };
+    let Some(fq) = pairs_from_json(input.get("fq").unwrap_or(&Value::Null)) else { return };
+    let Some(fun) = input.get("F").and_then(Fun::from_json) else { return };
+    if !f.valid() || fq.is_empty() || fq.iter().any(|&(u, v)| u >= f.w.len() || v >= f.w.len()) || !fun.well_typed() || !fun.covers(&f) {
+        return;
+    }
+    ctx.case("refusal", input, f.nontrivial());
+    let l = to_lax_q(&f, &fq);
+    match guard(|| lf::try_define_map_arrow(&fun, &l)) {
+        Err(p) => ctx.fail("refusal", "C13.refuses-pending", input, json!(format!("panic: {}", p)), json!("None")),
+        Ok(Some(r)) => ctx.fail("refusal", "C13.refuses-pending", input, json!(format!("Some({:?})", r)), json!("None")),
+        Ok(None) => {}
+    }
+    match guard(|| lf::map_arrow_witness(&fun, &l)) {
+        Err(p) => ctx.fail("refusal", "C13.refuses-pending-witness", input, json!(format!("panic: {}", p)), json!("None")),
+        Ok(Some((r, _))) => ctx.fail("refusal", "C13.refuses-pending-witness", input, json!(format!("Some({:?})", r)), json!("None")),
+        Ok(None) => {}
+    }
+}
+
+fn both(ctx: &mut Ctx, input: &Value) {
+    chk_native(ctx, input);
+    chk_witness(ctx, input);
+}
+
+pub fn run(ctx: &mut Ctx) {
+    if let Some((name, input)) = ctx.replay.clone() {
+        for (n, c) in CHECKS {
+            if *n == name {
+                c(ctx, &input);
+            }
+        }
+        return;
+    }
+    let thorough = ctx.thorough();
+
+    // (a) corner diagrams x corner object maps x image kinds
+    let corners = corner_diagrams();
+    let objs = corner_objs();
+    for f in &corners {
+        for obj in &objs {
+            for kind in 0..KINDS {
+                let fun = fun_with_obj(&mut ctx.rng, &[f], obj.clone(), Some(kind));
+                both(ctx, &json!({"f": f.json(), "F": fun.json()}));
+            }
+        }
+    }
+    // long chains (64 = 32+32 nodes merged in binomial-tree order by wire-only images)
+    for k in [1usize, 3, 6] {
+        let f = binomial_chain(k, 0);
+        for obj in [vec![vec![0u8], vec![1], vec![2]], vec![vec![1, 0], vec![1], vec![2]], vec![vec![], vec![1], vec![2]], vec![vec![0, 0, 0], vec![1], vec![2]]] {
+            for kind in [0usize, 3, 5] {
+                let mut fun = Fun { obj: obj.clone(), ops: vec![] };
+                let fa = fun.fobj(&[0]);
+                let m = match kind {
+                    0 => singleton(30, &fa, &fa),
+                    3 => identity(&fa),
+                    _ => gen_image(&mut ctx.rng, 10, &fa, &fa, 5).0,
+                };
+                fun.ops.push(OpImg { x: 10, a: vec![0], b: vec![0], m, q: vec![] });
+                both(ctx, &json!({"f": f.json(), "F": fun.json()}));
+            }
+        }
+    }
+
+    // refusal corners: reflexive pair, redundant pair, pair between different labels, pair on an
+    // otherwise empty diagram, pending pair next to operations, many pairs
+    {
+        let idf = |f: &M| -> Fun {
+            Fun { obj: (0..NLABELS).map(|l| vec![l as u8]).collect(), ops: sigs(&[f]).into_iter().map(|(x, a, b)| OpImg { m: singleton(x, &a, &b), x, a, b, q: vec![] }).collect() }
+        };
+        let one = M { w: vec![0], x: vec![], src: vec![], tgt: vec![], s: vec![], t: vec![] };
+        let two = M { w: vec![0, 0], x: vec![], src: vec![], tgt: vec![], s: vec![0], t: vec![1] };
+        let mixed = M { w: vec![0, 1], x: vec![], src: vec![], tgt: vec![], s: vec![0], t: vec![1] };
+        let cases: Vec<(M, Vec<(usize, usize)>)> = vec![
+            (one.clone(), vec![(0, 0)]),
+            (two.clone(), vec![(0, 1)]),
+            (two.clone(), vec![(1, 0)]),
+            (two.clone(), vec![(0, 0)]),
+            (two.clone(), vec![(1, 1)]),
+            (two.clone(), vec![(0, 1), (0, 1), (1, 0)]),
+            (mixed.clone(), vec![(0, 1)]),
+            (mixed.clone(), vec![(1, 1)]),
+            (singleton(10, &[0, 1], &[1]), vec![(1, 2)]),
+            (singleton(10, &[0, 1], &[1]), vec![(2, 2)]),
+            (binomial_chain(3, 0), vec![(7, 0)]),
+            (binomial_chain(5, 0), (0..31).map(|i| (i, i + 1)).collect()),
+        ];
+        for (f, fq) in cases {
+            for obj in [idf(&f).obj, vec![vec![], vec![], vec![]], vec![vec![0, 1], vec![1, 1], vec![2]]] {
+                let fun = fun_with_obj(&mut ctx.rng, &[&f], obj, Some(0));
+                chk_refusal(ctx, &json!({"f": f.json(), "fq": pairs_json(&fq), "F": fun.json()}));
+            }
+        }
+    }
+
+    // (b) exhaustive small diagrams x the 27 family functors
+    let small = if thorough { enum_models(2, 2, 2, false) } else { enum_models(2, 2, 1, false) };
+    let small2 = if thorough { enum_models(2, 0, 1, true) } else { vec![] };
+    let mut cnt = 0usize;
+    for f in small.iter().chain(small2.iter()) {
+        for i0 in 0..3 {
+            for i1 in 0..3 {
+                for kind in 0..3 {
+                    if f.x.is_empty() && kind > 0 {
+                        continue;
+                    }
+                    cnt += 1;
+                    if !thorough && cnt % 2 == 1 && f.w.len() == 2 {
+                        continue; // quick tier: every second functor on the 2-node diagrams
+                    }
+                    let fun = family_fun(&[f], i0, i1, kind);
+                    both(ctx, &json!({"f": f.json(), "F": fun.json()}));
+                }
+            }
+        }
+        // refusal on every small diagram with a node: one reflexive or one genuine pending pair
+        if !f.w.is_empty() {
+            let fun = family_fun(&[f], 1, 1, 0);
+            let n = f.w.len();
+            for fq in [vec![(0usize, 0usize)], vec![(n - 1, 0)]] {
+                chk_refusal(ctx, &json!({"f": f.json(), "fq": pairs_json(&fq), "F": fun.json()}));
+            }
+        }
+    }
+
+    // (c) seeded random
+    let n = ctx.budget(2000, 50000);
+    for i in 0..n {
+        let b = if i % 4 == 0 { GEN_MEDIUM } else { GEN_SMALL };
+        let f = random_model(&mut ctx.rng, b);
+        let mode = [0usize, 0, 0, 5, 1, 3, 2, 4][ctx.rng.below(8)];
+        let kind = if ctx.rng.chance(1, 3) { Some(ctx.rng.below(KINDS)) } else { None };
+        let fun = gen_fun(&mut ctx.rng, &[&f], mode, kind);
+        both(ctx, &json!({"f": f.json(), "F": fun.json()}));
+        if i % 4 == 0 && !f.w.is_empty() {
+            // any pending pairs at all, equal labels or not
+            let k = ctx.rng.range(1, 3);
+            let fq: Vec<(usize, usize)> = (0..k).map(|_| (ctx.rng.below(f.w.len()), ctx.rng.below(f.w.len()))).collect();
+            chk_refusal(ctx, &json!({"f": f.json(), "fq": pairs_json(&fq), "F": fun.json()}));
+        }
+    }
+    // operation-free diagrams with arbitrary wiring and long interfaces
+    let n = ctx.budget(300, 5000);
+    for _ in 0..n {
+        let mut f = random_model(&mut ctx.rng, Bounds { nodes: 4, edges: 0, arity: 0, iface: 6, labels: 3 });
+        f.x.clear();
+        f.src.clear();
+        f.tgt.clear();
+        let fun = gen_fun(&mut ctx.rng, &[&f], 0, None);
+        both(ctx, &json!({"f": f.json(), "F": fun.json()}));
+    }
+
+    ctx.notes.push(format!(
+        "rule: inputs are (quotient-free diagram f, table functor F as in C12) for native/witness and (diagram f, non-empty list of \
+         pending unifications fq between arbitrary nodes, F) for refusal. native: try_define_map_arrow result quotiented by the \
+         reference closure (and by the library quotient) is isomorphic to the strict-path image and to the definitional \
+         substitution; witness: shape/sizes/labels on raw fields, interfaces pushed through witness and quotient map (reference \
+         and library), returned diagram isomorphic to the strict-path image, witness nodes are the nodes replacing each input \
+         node (isomorphism with the witness nodes exposed as extra interface entries). Enumeration: {} corner diagrams x {} \
+         object maps x {} image kinds; binomial chains of 2/8/64 nodes; 12 refusal corners (reflexive, redundant, \
+         label-mismatching, long chain) x 3 object maps; exhaustive: {} diagrams with <=2 nodes (labels 0/1), <=1 edge with lists \
+         <=2, interfaces <={}{} x 27 family functors{}; random: bounds (3 nodes,2 edges,arity 2,iface 3,labels 3) and (5,3,3,4,3), \
+         object-map lengths 0..3, every fourth also with 1..3 random pending pairs for refusal; operation-free diagrams with \
+         interfaces up to 6. non-trivial = the diagram has a node and an edge or an interface entry.",
+        corners.len(),
+        objs.len(),
+        KINDS,
+        small.len(),
+        if thorough { 2 } else { 1 },
+        if thorough { format!(" + {} two-edge diagrams", small2.len()) } else { String::new() },
+        if thorough { "" } else { " (every second functor on 2-node diagrams)" }
+    ));
+}
